@@ -89,7 +89,7 @@ func KeyID(def TableDef, it Item) string {
 }
 
 // keyProblem classifies a key map against a key schema:
-// "" fine, "missing", "type", "empty", "extra".
+// "" fine, "missing", "type", "extra".
 func keyProblem(keys []KeyDef, key Item, exact bool) string {
 	for _, k := range keys {
 		v, ok := key[k.Name]
@@ -98,9 +98,6 @@ func keyProblem(keys []KeyDef, key Item, exact bool) string {
 		}
 		if v.T != k.Type {
 			return "type"
-		}
-		if (v.T == "S" && v.S == "") || (v.T == "B" && len(v.B) == 0) {
-			return "empty"
 		}
 	}
 	if exact && len(key) != len(keys) {
@@ -514,7 +511,7 @@ func (m *Model) applyBatchGet(c *MClient, cmd *Cmd) Expect {
 // changes; what is fixed about the answer depends on the kind.
 func (m *Model) applyBad(c *MClient, cmd *Cmd) Expect {
 	switch cmd.Bad {
-	case "key-missing", "key-type", "key-empty":
+	case "key-missing", "key-type":
 		// C13: rejected with a validation error
 		if _, ok := c.Tables[cmd.T]; !ok {
 			return Expect{AnyFail: true}
